@@ -483,7 +483,11 @@ theorem applyRules_false_iff (U : Nat → Bool) (tags : Tags) (rl : List Bytes) 
             exact hsel
       · by_cases ha : knownArch a = true
         · have e := fileSel_known U tags a (Or.inr ha) hs
-          simp only [applyRules, applyRule, h1', Bool.false_eq_true, if_false, ho, ha, if_true, e]
+          have hoo : knownOS o = false := by
+            cases h2 : knownOS o
+            · rfl
+            · exact absurd ⟨h2, ha⟩ h1
+          simp only [applyRules, applyRule, hoo, Bool.false_and, Bool.false_eq_true, if_false, ho, ha, if_true, e]
           constructor
           · intro h; right; exact ⟨a, o :: rest, rfl, Or.inr ha, h⟩
           · rintro (⟨a', o', rest', heq, h2, h3, _⟩ | ⟨t, rest', heq, _, hsel⟩)
